@@ -55,7 +55,16 @@ pub fn c07_history_case(rng: &mut Rng, st: &mut Stats) -> CaseOutcome {
         allow_peek: true,
         allow_position: true,
     };
-    let ops = gen_history(rng, &input, &hp);
+    let mut ops = gen_history(rng, &input, &hp);
+    // "peek everything that is left": counts far beyond the input (a panic here is a scanning panic)
+    for op in ops.iter_mut() {
+        if let Op::PeekN(n) = op {
+            if rng.chance(1, 6) {
+                *n = *rng.pick(&[usize::MAX, usize::MAX / 2, usize::MAX / 24 + 1]);
+                st.count("peeks_with_a_count_far_beyond_the_input");
+            }
+        }
+    }
     let case = || hist_case_json("wf_history", &cfg, &input, &ops, json!(null));
     let scanner = match build_any(&cfg, rng.chance(1, 4)) {
         Ok(s) => s,
